@@ -28,11 +28,11 @@ CONSTANTS NP,       \* number of program slots
           MaxReg,   \* bound on the number of register references of one program
           Depth,    \* length of the call histories
           EMIT
-VARIABLES prog, ctx, hist, trail
-vars == <<prog, ctx, hist, trail>>
+VARIABLES prog, ctx, eng, hist, trail
+vars == <<prog, ctx, eng, hist, trail>>
 
 Slots   == 1 .. NP
-Absent  == [ex |-> FALSE, locked |-> FALSE, len |-> 0, reg |-> << >>, src |-> 0, parent |-> 0, derived |-> FALSE]
+Absent  == [ex |-> FALSE, locked |-> FALSE, len |-> 0, reg |-> << >>, init |-> << >>, src |-> 0, parent |-> 0, derived |-> FALSE]
 Present(p) == prog[p].ex
 Free    == {s \in Slots : ~Present(s)}
 NextFree == CHOOSE s \in Free : \A t \in Free : s <= t
@@ -40,31 +40,32 @@ NextFree == CHOOSE s \in Free : \A t \in Free : s <= t
 Act(name, args, res) == [act |-> name, args |-> args, res |-> res]
 \* every action records the call, its expected outcome and the state it must leave behind
 Log(name, args, res) == /\ hist' = Append(hist, Act(name, args, res))
-                        /\ trail' = Append(trail, [prog |-> prog', ctx |-> ctx'])
+                        /\ trail' = Append(trail, [prog |-> prog', ctx |-> ctx', eng |-> eng'])
 
-Init == /\ prog = [s \in Slots |-> Absent] /\ ctx = 0 /\ hist = << >> /\ trail = << >>
+NoEngine == [used |-> FALSE, reg |-> << >>]
+Init == /\ prog = [s \in Slots |-> Absent] /\ ctx = 0 /\ eng = NoEngine /\ hist = << >> /\ trail = << >>
 
 \* ---- constructors ------------------------------------------------------------------------
 Create(n) == /\ Free # {}
-             /\ prog' = [prog EXCEPT ![NextFree] = [Absent EXCEPT !.ex = TRUE, !.reg = [i \in 1 .. n |-> TRUE]]]
-             /\ UNCHANGED ctx /\ Log("Create", <<NextFree, n>>, "ok")
+             /\ prog' = [prog EXCEPT ![NextFree] = [Absent EXCEPT !.ex = TRUE, !.reg = [i \in 1 .. n |-> TRUE], !.init = [i \in 1 .. n |-> TRUE]]]
+             /\ UNCHANGED <<ctx, eng>> /\ Log("Create", <<NextFree, n>>, "ok")
 \* Program(parent): the parent is locked, the successor starts from the parent's register state (own references)
 Child(p)  == /\ Free # {} /\ Present(p)
              /\ prog' = [prog EXCEPT ![p].locked = TRUE,
-                                     ![NextFree] = [Absent EXCEPT !.ex = TRUE, !.reg = prog[p].reg, !.parent = p]]
-             /\ UNCHANGED ctx /\ Log("Child", <<NextFree, p>>, "ok")
+                                     ![NextFree] = [Absent EXCEPT !.ex = TRUE, !.reg = prog[p].reg, !.init = prog[p].reg, !.parent = p]]
+             /\ UNCHANGED <<ctx, eng>> /\ Log("Child", <<NextFree, p>>, "ok")
 \* compile() / optimize(): original and copy are locked and share the register; the copy points at the original source
 Derive(p, how) == /\ Free # {} /\ Present(p)
                   /\ prog' = [prog EXCEPT ![p].locked = TRUE,
-                                          ![NextFree] = [Absent EXCEPT !.ex = TRUE, !.locked = TRUE, !.reg = prog[p].reg, !.derived = TRUE,
+                                          ![NextFree] = [Absent EXCEPT !.ex = TRUE, !.locked = TRUE, !.reg = prog[p].reg, !.init = prog[p].init, !.derived = TRUE,
                                                                        !.src = IF prog[p].src = 0 THEN p ELSE prog[p].src]]
-                  /\ UNCHANGED ctx /\ Log(how, <<NextFree, p>>, "ok")
+                  /\ UNCHANGED <<ctx, eng>> /\ Log(how, <<NextFree, p>>, "ok")
 
 \* ---- the context -------------------------------------------------------------------------
-Enter(p) == /\ Present(p)
+Enter(p) == /\ Present(p) /\ UNCHANGED eng
             /\ IF ctx = 0 THEN ctx' = p /\ UNCHANGED prog /\ Log("Enter", <<p>>, "ok")
                           ELSE UNCHANGED <<ctx, prog>> /\ Log("Enter", <<p>>, "RuntimeError")
-Exit     == /\ ctx # 0 /\ ctx' = 0 /\ UNCHANGED prog /\ Log("Exit", <<ctx>>, "ok")
+Exit     == /\ ctx # 0 /\ ctx' = 0 /\ UNCHANGED <<prog, eng>> /\ Log("Exit", <<ctx>>, "ok")
 
 \* ---- calls made inside (or wrongly outside) a context -----------------------------------------
 \* a gate applied to register reference m of program p (the reference object itself is used)
@@ -75,7 +76,7 @@ RefRes(p, m) == IF ctx = 0 THEN "error"
                 ELSE "ok"
 GateRef(p, m) == /\ Present(p) /\ m \in 1 .. Len(prog[p].reg)
                  /\ prog' = IF RefRes(p, m) = "ok" THEN [prog EXCEPT ![p].len = @ + 1] ELSE prog
-                 /\ UNCHANGED ctx /\ Log("GateRef", <<p, m>>, RefRes(p, m))
+                 /\ UNCHANGED <<ctx, eng>> /\ Log("GateRef", <<p, m>>, RefRes(p, m))
 \* a gate / deletion addressed by integer index: it goes to whichever program owns the context
 IntRes(m) == IF ctx = 0 THEN "error"
              ELSE IF prog[ctx].locked THEN "CircuitError"
@@ -84,25 +85,33 @@ IntRes(m) == IF ctx = 0 THEN "error"
              ELSE "ok"
 GateInt(m) == /\ m \in 1 .. MaxReg
               /\ prog' = IF IntRes(m) = "ok" THEN [prog EXCEPT ![ctx].len = @ + 1] ELSE prog
-              /\ UNCHANGED ctx /\ Log("GateInt", <<m>>, IntRes(m))
+              /\ UNCHANGED <<ctx, eng>> /\ Log("GateInt", <<m>>, IntRes(m))
 DelInt(m)  == /\ m \in 1 .. MaxReg
               /\ prog' = IF IntRes(m) = "ok" THEN [prog EXCEPT ![ctx].len = @ + 1, ![ctx].reg[m] = FALSE] ELSE prog
-              /\ UNCHANGED ctx /\ Log("DelInt", <<m>>, IntRes(m))
+              /\ UNCHANGED <<ctx, eng>> /\ Log("DelInt", <<m>>, IntRes(m))
 NewRes == IF ctx = 0 THEN "RuntimeError" ELSE IF prog[ctx].locked THEN "CircuitError" ELSE "ok"
 NewMode == /\ (ctx # 0 => Len(prog[ctx].reg) < MaxReg)
            /\ prog' = IF NewRes = "ok" THEN [prog EXCEPT ![ctx].len = @ + 1, ![ctx].reg = Append(@, TRUE)] ELSE prog
-           /\ UNCHANGED ctx /\ Log("New", << >>, NewRes)
+           /\ UNCHANGED <<ctx, eng>> /\ Log("New", << >>, NewRes)
 
 \* ---- locking -----------------------------------------------------------------------------
 Lock(p) == /\ Present(p) /\ ~prog[p].locked
-           /\ prog' = [prog EXCEPT ![p].locked = TRUE] /\ UNCHANGED ctx /\ Log("Lock", <<p>>, "ok")
+           /\ prog' = [prog EXCEPT ![p].locked = TRUE] /\ UNCHANGED <<ctx, eng>> /\ Log("Lock", <<p>>, "ok")
 \* running on a fresh engine locks the program and changes nothing else
 Run(p)  == /\ Present(p)
-           /\ prog' = [prog EXCEPT ![p].locked = TRUE] /\ UNCHANGED ctx /\ Log("Run", <<p>>, "ok")
+           /\ prog' = [prog EXCEPT ![p].locked = TRUE] /\ UNCHANGED <<ctx, eng>> /\ Log("Run", <<p>>, "ok")
+\* running on the one long-lived engine: the first program starts it; a later one must begin where the previous one ended
+\* (same register references, same activity flags), otherwise it is refused -- after it was compiled, i.e. locked
+AllLive(r) == \A i \in DOMAIN r : r[i]
+EngRes(p)  == IF ~eng.used \/ prog[p].init = eng.reg THEN "ok" ELSE "RuntimeError"
+RunE(p) == /\ Present(p) /\ (~eng.used => AllLive(prog[p].init))
+           /\ prog' = [prog EXCEPT ![p].locked = TRUE]
+           /\ eng' = IF EngRes(p) = "ok" THEN [used |-> TRUE, reg |-> prog[p].reg] ELSE eng
+           /\ UNCHANGED ctx /\ Log("RunE", <<p>>, EngRes(p))
 
 Next == /\ Len(hist) < Depth
         /\ \/ \E n \in 1 .. 2 : Create(n)
-           \/ \E p \in Slots : Child(p) \/ Derive(p, "Compile") \/ Derive(p, "Optimize") \/ Enter(p) \/ Lock(p) \/ Run(p)
+           \/ \E p \in Slots : Child(p) \/ Derive(p, "Compile") \/ Derive(p, "Optimize") \/ Enter(p) \/ Lock(p) \/ Run(p) \/ RunE(p)
            \/ Exit \/ NewMode
            \/ \E p \in Slots : \E m \in 1 .. MaxReg : GateRef(p, m)
            \/ \E m \in 1 .. MaxReg : GateInt(m) \/ DelInt(m)
@@ -110,7 +119,12 @@ Spec == Init /\ [][Next]_vars
 
 \* ---- properties ----------------------------------------------------------------------------
 LockedIsFrozen == [][\A p \in Slots : (Present(p) /\ prog[p].locked) => prog'[p] = prog[p]]_vars
-RefusalsChangeNothing == [][(hist' # hist /\ hist'[Len(hist')].res # "ok") => (prog' = prog /\ ctx' = ctx)]_vars
+RefusalsChangeNothing == [][(hist' # hist /\ hist'[Len(hist')].res # "ok" /\ hist'[Len(hist')].act # "RunE") => (prog' = prog /\ ctx' = ctx /\ eng' = eng)]_vars
+\* a refused run leaves the engine and every program as they were, except that the refused program has been locked
+RefusedRunOnlyLocks == [][(hist' # hist /\ hist'[Len(hist')].res # "ok" /\ hist'[Len(hist')].act = "RunE") =>
+                            (eng' = eng /\ ctx' = ctx /\ \A p \in Slots : prog'[p] = [prog[p] EXCEPT !.locked = prog'[p].locked])]_vars
+\* the engine's register is always the final register of the last program it accepted
+EngineFollows == [][(eng' # eng) => \E p \in Slots : Present(p) /\ eng'.reg = prog[p].reg /\ (eng.used => prog[p].init = eng.reg)]_vars
 SourceFlat   == \A s \in Slots : (Present(s) /\ prog[s].src # 0) =>
                     /\ Present(prog[s].src) /\ prog[prog[s].src].src = 0 /\ prog[prog[s].src].locked /\ prog[s].locked
 CtxValid     == ctx = 0 \/ Present(ctx)
